@@ -286,9 +286,11 @@ static void* mi_heap_realloc_zero_aligned_at(mi_heap_t* heap, void* p, size_t ne
     // note: we don't zero allocate upfront so we only zero initialize the expanded part
     void* newp = mi_heap_malloc_aligned_at(heap,newsize,alignment,offset);
     if (newp != NULL) {
-      if (zero && newsize > size) {
-        // also set last word in the previous allocation to zero to ensure any padding is zero-initialized
-        size_t start = (size >= sizeof(intptr_t) ? size - sizeof(intptr_t) : 0);
+      if (zero) {
+        // zero everything beyond the bytes that are copied below; also set the last word of the copied part to zero
+        // to ensure any padding is zero-initialized
+        const size_t csize = (newsize > size ? size : newsize);
+        size_t start = (csize >= sizeof(intptr_t) ? csize - sizeof(intptr_t) : 0);
         _mi_memzero((uint8_t*)newp + start, mi_usable_size(newp) - start);  // zero the slack too: a later in-place expansion exposes it
       }
       _mi_memcpy_aligned(newp, p, (newsize > size ? size : newsize));
